@@ -9,7 +9,7 @@ import warnings
 import z3
 
 from ..errors import PyRaise, Unsupported
-from ..values import PyBytes, SBytes, SStr, Sym
+from ..values import PyBytes, SBool, SBytes, SStr, Sym
 from . import note
 
 sha256_of = z3.Function("sha256", PyBytes, PyBytes)
@@ -43,6 +43,7 @@ def install(it):
     it.call_native = call_native
     install_compile(it)
     install_ipaddress(it)
+    install_total_ordering(it)
 
 
 # ---- compile / eval of expression text (CompiledSelector) ---------------------------------------------------------------
@@ -93,6 +94,15 @@ def m_eval(it, code, g=None, l=None):
 
 def install_compile(it):
     import builtins
+    import keyword
+
+    def m_iskeyword(it_, s_):
+        s_ = it_.unbase(s_)
+        if isinstance(s_, SStr):
+            return SBool(z3.InRe(s_.t, z3.Union(*[z3.Re(k) for k in keyword.kwlist])))
+        return keyword.iskeyword(s_)
+
+    it.models[keyword.iskeyword] = m_iskeyword
 
     it.models[builtins.compile] = m_compile
     it.models[builtins.eval] = m_eval
@@ -123,3 +133,97 @@ def install_ipaddress(it):
     it.models[socket.inet_aton] = m_inet_aton
     it.models[_ip.ip_address] = wrap(_ip.ip_address)
     it.models[_ip.ip_network] = wrap(_ip.ip_network)
+
+
+# ---- functools.total_ordering on an interpreted class -----------------------------------------------------------------------
+TOTAL_ORDERING_SRC = """
+def _gt_from_lt(self, other):
+    op_result = type(self).__lt__(self, other)
+    if op_result is NotImplemented:
+        return op_result
+    return not op_result and self != other
+def _le_from_lt(self, other):
+    op_result = type(self).__lt__(self, other)
+    if op_result is NotImplemented:
+        return op_result
+    return op_result or self == other
+def _ge_from_lt(self, other):
+    op_result = type(self).__lt__(self, other)
+    if op_result is NotImplemented:
+        return op_result
+    return not op_result
+def _ge_from_le(self, other):
+    op_result = type(self).__le__(self, other)
+    if op_result is NotImplemented:
+        return op_result
+    return not op_result or self == other
+def _lt_from_le(self, other):
+    op_result = type(self).__le__(self, other)
+    if op_result is NotImplemented:
+        return op_result
+    return op_result and self != other
+def _gt_from_le(self, other):
+    op_result = type(self).__le__(self, other)
+    if op_result is NotImplemented:
+        return op_result
+    return not op_result
+def _lt_from_gt(self, other):
+    op_result = type(self).__gt__(self, other)
+    if op_result is NotImplemented:
+        return op_result
+    return not op_result and self != other
+def _ge_from_gt(self, other):
+    op_result = type(self).__gt__(self, other)
+    if op_result is NotImplemented:
+        return op_result
+    return op_result or self == other
+def _le_from_gt(self, other):
+    op_result = type(self).__gt__(self, other)
+    if op_result is NotImplemented:
+        return op_result
+    return not op_result
+def _le_from_ge(self, other):
+    op_result = type(self).__ge__(self, other)
+    if op_result is NotImplemented:
+        return op_result
+    return not op_result or self == other
+def _gt_from_ge(self, other):
+    op_result = type(self).__ge__(self, other)
+    if op_result is NotImplemented:
+        return op_result
+    return op_result and self != other
+def _lt_from_ge(self, other):
+    op_result = type(self).__ge__(self, other)
+    if op_result is NotImplemented:
+        return op_result
+    return not op_result
+"""
+_CONVERT = {"__lt__": [("__gt__", "_gt_from_lt"), ("__le__", "_le_from_lt"), ("__ge__", "_ge_from_lt")], "__le__": [("__ge__", "_ge_from_le"), ("__lt__", "_lt_from_le"), ("__gt__", "_gt_from_le")],
+            "__gt__": [("__lt__", "_lt_from_gt"), ("__ge__", "_ge_from_gt"), ("__le__", "_le_from_gt")], "__ge__": [("__le__", "_le_from_ge"), ("__gt__", "_gt_from_ge"), ("__lt__", "_lt_from_ge")]}
+
+
+def install_total_ordering(it):
+    import ast
+
+    from ..values import PClass, PFunc, PModule
+
+    def m_total_ordering(it_, cls):
+        if not isinstance(cls, PClass):
+            return functools.total_ordering(cls)
+        note("functools.total_ordering", "modelled by the derivation functions of CPython's functools (text in pyvc/models/misc.py)")
+        m = PModule("<functools.total_ordering>")
+        for st in ast.parse(TOTAL_ORDERING_SRC).body:
+            it_.stmt(st, m.g, m)
+        roots = [op for op in ("__lt__", "__le__", "__gt__", "__ge__") if isinstance(cls.find(op), PFunc)]
+        if not roots:
+            raise PyRaise(ValueError("must define at least one ordering operation: < > <= >="))
+        root = [r for r in ("__lt__", "__le__", "__gt__", "__ge__") if r in roots][0]
+        for opname, fn in _CONVERT[root]:
+            if opname not in roots:
+                f = m.g[fn]
+                f.owner = cls
+                f.name = opname
+                cls.d[opname] = f
+        return cls
+
+    it.models[functools.total_ordering] = m_total_ordering
